@@ -51,7 +51,8 @@ def random_inputs(rng, n, width, pw=None, pr=None):
 
 def run_async(variant, width, depth, events, exact_depth=False):
     """events: list of (wedge, redge, w_en, w_data, r_en[, w_rst]); one event = inputs applied, outputs
-    sampled, then the listed clocks rise simultaneously (and fall again, separately, afterwards)."""
+    sampled, then the listed clocks rise simultaneously (and fall again, separately, afterwards).
+    Returns (steps, effective depth); steps are the 11-element rows of FifoTrace.tla."""
     f = make(variant, width, depth, exact_depth=exact_depth)
     m = Module()
     m.domains.read = cd_r = ClockDomain("read")
@@ -59,22 +60,100 @@ def run_async(variant, width, depth, events, exact_depth=False):
     m.submodules.fifo = f
     sim = Simulator(m)
     steps = []
+    clocks = Cat(cd_w.clk, cd_r.clk)
 
     async def tb(ctx):
         for ev in events:
             wedge, redge, w_en, w_data, r_en = ev[:5]
+            if len(ev) > 5:
+                ctx.set(cd_w.rst, ev[5])
             ctx.set(f.w_en, w_en)
             ctx.set(f.w_data, w_data)
             ctx.set(f.r_en, r_en)
             steps.append([int(wedge), int(redge), int(w_en), int(w_data), int(r_en),
                           ctx.get(f.w_rdy), ctx.get(f.r_rdy), ctx.get(f.r_data),
                           -1, ctx.get(f.r_level), ctx.get(f.w_level)])
-            ctx.set(Cat(cd_w.clk, cd_r.clk), (1 if wedge else 0) | (2 if redge else 0))
-            ctx.set(Cat(cd_w.clk, cd_r.clk), 0)
+            ctx.set(clocks, (1 if wedge else 0) | (2 if redge else 0))
+            ctx.set(clocks, 0)
 
     sim.add_testbench(tb)
     sim.run()
     return steps, f.depth
+
+
+RATIOS = [(1, 1), (1, 3), (3, 1), (5, 2), (2, 5), (1, 7), (7, 1)]
+CLOCK_MODES = ["aligned", "offset", "jitter", "random", "coincident"]
+
+
+def clock_schedule(rng, n, ratio, mode):
+    """n clock events (wedge, redge) for write:read clock frequency ratio a:b.
+    aligned    both clocks periodic, in phase: edges coincide every lcm of the periods (1:1 -> always)
+    offset     periodic with random integer phases (coincide regularly or never, depending on parity)
+    jitter     periodic, each edge displaced by -1/0/+1 time units (coincidences come and go)
+    random     memoryless interleaving with the given ratio, 20 % coincident events
+    coincident every event is a simultaneous edge of both clocks"""
+    a, b = ratio
+    if mode == "coincident":
+        return [(1, 1)] * n
+    if mode == "random":
+        out = []
+        for _ in range(n):
+            if rng.random() < 0.2:
+                out.append((1, 1))
+            else:
+                w = int(rng.random() * (a + b) < a)
+                out.append((w, 1 - w))
+        return out
+    pw, pr = 4 * b, 4 * a                  # periods in time units (frequency a:b)
+    tw = 0 if mode == "aligned" else rng.randrange(pw)
+    tr = 0 if mode == "aligned" else rng.randrange(pr)
+    jit = (lambda: rng.choice((-1, 0, 0, 1))) if mode == "jitter" else (lambda: 0)
+    nw, nr = tw + jit(), tr + jit()
+    out = []
+    while len(out) < n:
+        t = min(nw, nr)
+        we, re_ = int(nw == t), int(nr == t)
+        out.append((we, re_))
+        if we:
+            tw += pw
+            nw = max(t + 1, tw + jit())
+        if re_:
+            tr += pr
+            nr = max(t + 1, tr + jit())
+    return out
+
+
+def async_events(rng, n, width, ratio=None, mode=None, tail_edges=14):
+    """A clock schedule with strobe phases of different densities (fill / drain / balanced), followed by a
+    tail without writes (at least tail_edges edges of each clock, sparse or no reads) so that entries written
+    last stay in the queue long enough for the bounded-liveness clause to be exercised."""
+    ratio = ratio or rng.choice(RATIOS)
+    mode = mode or rng.choice(CLOCK_MODES)
+    mask = (1 << width) - 1
+    sched = clock_schedule(rng, n, ratio, mode)
+    out = []
+    while len(out) < n:
+        a = rng.choice([0.1, 0.5, 0.9, 1.0])
+        b = rng.choice([0.0, 0.1, 0.5, 0.9, 1.0])
+        for _ in range(rng.randint(5, 60)):
+            if len(out) >= n:
+                break
+            we, re_ = sched[len(out)]
+            out.append((we, re_, int(rng.random() < a), rng.getrandbits(width) & mask if width else 0,
+                        int(rng.random() < b)))
+    # a final burst of writes, then silence on the write port
+    burst = clock_schedule(rng, rng.randint(2, 12), ratio, mode)
+    out += [(we, re_, 1, rng.getrandbits(width) & mask if width else 0, 0) for we, re_ in burst]
+    pr_tail = rng.choice([0.0, 0.0, 0.05, 0.3])
+    nw = nr = 0
+    tail = clock_schedule(rng, tail_edges * (ratio[0] + ratio[1]) * 4, ratio, mode)
+    for we, re_ in tail:
+        out.append((we, re_, 0, rng.getrandbits(width) & mask if width else 0, int(rng.random() < pr_tail)))
+        nw += we
+        nr += re_
+        if nw >= tail_edges and nr >= tail_edges:
+            break
+    return out, ratio, mode
 
 
 def random_events(rng, n, width, ratio=None):
